@@ -22,6 +22,8 @@ def gen_filter(rnd: random.Random, depth: int = 0):
         hi = rnd.choice([None, rnd.randrange(1, 86400) * 1_000_000_000])
         if lo is None and hi is None:
             lo = 0
+        if lo is not None and hi is not None and lo >= hi and rnd.random() < 0.9:
+            lo, hi = hi, lo + 1_000_000_000      # an empty window only rarely
         return ('time', lo, hi)
     if r < 0.8:
         return ('not', gen_filter(rnd, depth + 1))
